@@ -121,6 +121,19 @@ theorem flattened_header_decode_encode (fc : Nat) (i : InfoFork) (ds : Nat) (h :
     ffoDecode (ffoHeader fc i ds ++ rest) = .ok (fc, i, ds) :=
   ffoDecode_header fc i ds h hn hfc hds rest
 
+/-- News path (field 325): decoding an encoded news path yields the original items. -/
+theorem news_path_decode_encode (items : List Bytes) (h : ∀ it ∈ items, it.length < 256) (hn : items.length < 65536) :
+    newsPathDecode (pathEncode items) = .ok items :=
+  newsPathDecode_encode items h hn
+
+/-- Account record (reply to "get user"): the parameter-count prefix equals the number of fields,
+    the fields parse back in order, and the login obfuscation is its own inverse. -/
+theorem account_record_roundtrip (a : AccountRec) (h1 : a.name.length < 65536) (h2 : a.login.length < 65536)
+    (h3 : a.access.length < 65536) :
+    rd16 a.encode = a.fields.length ∧ parseFields a.fields.length (a.encode.drop 2) = .ok a.fields ∧
+    obfuscate (obfuscate a.login) = a.login :=
+  ⟨(AccountRec.roundtrip a h1 h2 h3).1, (AccountRec.roundtrip a h1 h2 h3).2, obfuscate_involutive a.login⟩
+
 /-- Transfer preamble: the 16 bytes a transfer connection starts with decode to the reference number
     and size they were built from, whatever follows them on the stream. -/
 theorem transfer_preamble_decode_encode (ref size : Nat) (hr : ref < 4294967296) (hs : size < 4294967296) (rest : Bytes) :
